@@ -18,6 +18,7 @@ import Chrono.Extracted.Rfc2822
 import Chrono.Extracted.Rfc2822Rules
 import Chrono.Proofs.Rfc2822TableL
 import Chrono.Proofs.Rfc2822ListL
+import Chrono.Props.GenDate
 
 namespace Chrono.Props.C11
 open Chrono Chrono.M Chrono.Spec Chrono.Spec.Rfc2822 Chrono.Proofs.Rfc2822
@@ -685,6 +686,33 @@ example : applyYearRule Extracted.YEAR_RULE_2822 2 3 = 2003 ∧ applyYearRule Ex
     interpWrite Extracted.YEAR_GUARD_2822 Extracted.WRITE_2822 ⟨dateOfYo 2017 1, ⟨19799, 1500000000⟩⟩ 19800
       = .ok (some (stdText ⟨some .sun, 1, 1, 2017, 5, 29, some 60, 19800⟩)) := by
   decide +kernel
+
+/-- **gen_wall_date_fields** (generated code = specification, for the writer's date accessors).  The code
+that tools/extractors/rust2lean.py translates from the CURRENT source of `NaiveDate::{year, month, day,
+weekday}` (`Chrono.Gen.naive_date.*`, tied to the model by `Props/GenDate.gen_*_eq`), run on the wall-clock
+reading `overflowing_naive_local()` of ANY well-formed value, returns exactly the year, month, day and
+day-name that `writer_shape` shows (`fieldsOf z Y o`): composition of `gen_year_eq` / `gen_month_eq` /
+`gen_day_eq` / `gen_weekday_eq` with C01's calendar theorems and C04's wall-clock reading. -/
+theorem gen_wall_date_fields (z : Zoned) (hz : ZInv z) (Y : Int) (o : Nat) (hw : WallDate z Y o) :
+    ∃ l, Zoned.overflowing_naive_local z = .ok l ∧
+      Gen.naive_date.NaiveDate.year l.date.yof = (fieldsOf z Y o).year ∧
+      Gen.naive_date.NaiveDate.month l.date.yof = .ok ((fieldsOf z Y o).month : Int) ∧
+      Gen.naive_date.NaiveDate.day l.date.yof = .ok ((fieldsOf z Y o).day : Int) ∧
+      ∃ n : Nat, Gen.naive_date.NaiveDate.weekday l.date.yof = .ok n ∧
+        weekdays[n]? = (fieldsOf z Y o).weekday := by
+  obtain ⟨l, h1, h2, ⟨_, _, v3, v4⟩, _⟩ := wall_reading z hz Y o hw
+  have hyl := Chrono.Proofs.yearLen_ge Y
+  obtain ⟨fy, _⟩ := Chrono.Proofs.dateOfYo_fields Y o (by omega)
+  obtain ⟨hm, hd, _⟩ := Chrono.Proofs.month_day_spec Y o v3 v4
+  have hwd := Chrono.Proofs.weekday_spec Y o (by omega)
+  refine ⟨l, h1, ?_, ?_, ?_, (dateOfYo Y o).weekday.toNat, ?_, ?_⟩
+  · rw [Chrono.Props.GenDate.gen_year_eq, h2, fy]; rfl
+  · rw [Chrono.Props.GenDate.gen_month_eq, h2, hm]; rfl
+  · rw [Chrono.Props.GenDate.gen_day_eq, h2, hd]; rfl
+  · rw [Chrono.Props.GenDate.gen_weekday_eq, h2]
+  · show weekdays[(dateOfYo Y o).weekday.toNat]? = weekdayAt (dayNumYo Y o)
+    unfold weekdayAt
+    rw [← hwd, Int.toNat_natCast]
 
 end Tables
 
